@@ -7,6 +7,11 @@ max(1e-9, 1e-7·p), be in [0, 1], not nan; exceptions must agree; and the intege
 the implementation hands to its special functions (ChiSquare counts, cusum z, BinomialCdf
 arguments, selected parameters) must equal the model's exactly.
 
+float-decided exceptions (review F11; Model/NistFloat.lean): where Python raises because a FLOAT underflowed
+(ChiSquare rejecting an expected probability that became 0.0 in RankDistribution / the overlapping-template
+matrix power; `excursions * pi[k] == 0.0` in RandomWalk), the float test's outcome is an explicit oracle of
+the model, recorded here at the call site (Recorder.chisq / Recorder.red) and passed on the request line.
+
 pred (property clauses on the implementation, never through the model): range, agreement
 with the definitional reference harness/nist_ref.py + tail (includes "InsufficientDataError
 exactly below the documented minimum"), and the invariances.
@@ -35,10 +40,18 @@ META = dict(
         '(igamc(1/2, x) near x = 0) the p-value is compared at the implementation\'s own float statistic, which must '
         'agree with the exact one up to 1e-13·n (count in evidence: ill_conditioned_tail_accepted)',
         'per-block linear complexities are an oracle recorded from berlekamp_massey.LinearComplexity (C14)',
+        'float-underflow oracles (Model/NistFloat.lean), recorded from the real run by wrappers around the module '
+        'globals nist_suite.ChiSquare and nist_suite.RandomExcursionsDistribution and passed on the request line: '
+        'ChiOracle.badProb = any(not 0.0 < p <= 1.0 for p in prob), ChiOracle.badSum = abs(sum(prob) - 1.0) > 1e-04 '
+        'for the ChiSquare call of BinaryMatrixRankImpl / OverlappingTemplateMatchingImpl (-> ValueError); '
+        'excZero = some RandomExcursionsDistribution(x, max_cnt) has a 0.0 entry (-> ZeroDivisionError in RandomWalk); '
+        'counts per run in evidence: float_oracle',
         'definitional Python reference harness/nist_ref.py (used by the property predicates only)',
     ],
     assumptions=[
         'bits < 2^n (contract of every test function); optional parameters >= 1',
+        'n < 2^1023 and memory suffices: int -> float overflow (Frequency(0, 2**1100) raises OverflowError in '
+        'math.sqrt(n)) and MemoryError are not modelled',
         'model functions in Model/Nist.lean mirror nist_suite.py / extended_nist_suite.py with D4, D10-D14, D19 '
         'repaired; tie checked by this correspondence run',
         'Spectral (2.6) has no exact part (FFT in floating point): cross-checked against an mpmath DFT only',
@@ -93,13 +106,18 @@ class Recorder:
     self.tr = []
     self.oracle = []
     self.bm_oracle = bm_oracle
+    # float-decided exceptions (Model/NistFloat.lean): flags of every ChiSquare call, zero entry in
+    # any RandomExcursionsDistribution result
+    self.flo = dict(chi=[], exc0=False, chi_zero_idx=[])
 
   def __enter__(self):
     ns, ens, util = mods()
     self.saved = dict(ns_math=ns.math, ns_util=ns.util, ens_util=ens.util, chi=ns.ChiSquare,
                       cus=ns.CumulativeSumsPValue, uni=ns.UniversalImpl, bfi=ns.BlockFrequencyImpl,
-                      ns_bm=ns.berlekamp_massey, ens_bm=ens.berlekamp_massey)
+                      ns_bm=ns.berlekamp_massey, ens_bm=ens.berlekamp_massey,
+                      red=ns.RandomExcursionsDistribution)
     tr = self.tr
+    flo = self.flo
 
     def erfc(x):
       tr.append(('erfc', x))
@@ -115,7 +133,17 @@ class Recorder:
 
     def chisq(count, prob, k=None):
       tr.append(('chi', tuple(int(c) for c in count), k))
+      # the two float tests of ChiSquare's argument validation, on the floats actually passed
+      pr = list(prob)
+      flo['chi'].append((any(not 0.0 < p <= 1.0 for p in pr), bool(abs(sum(pr) - 1.0) > 1e-04)))
+      flo['chi_zero_idx'].append([i for i, p in enumerate(pr) if p == 0.0])
       return self.saved['chi'](count, prob, k)
+
+    def red(x, max_cnt=5):
+      pi = self.saved['red'](x, max_cnt)
+      if any(p == 0.0 for p in pi):
+        flo['exc0'] = True
+      return pi
 
     def cusum(n, z):
       tr.append(('cusum', int(n), int(z)))
@@ -142,6 +170,7 @@ class Recorder:
     ns.berlekamp_massey = bm
     ens.berlekamp_massey = bm
     ns.ChiSquare = chisq
+    ns.RandomExcursionsDistribution = red
     ns.CumulativeSumsPValue = cusum
     ns.UniversalImpl = uni
     ns.BlockFrequencyImpl = bfi
@@ -153,6 +182,7 @@ class Recorder:
     ns.math, ns.util, ens.util = s['ns_math'], s['ns_util'], s['ens_util']
     ns.ChiSquare, ns.CumulativeSumsPValue, ns.UniversalImpl = s['chi'], s['cus'], s['uni']
     ns.BlockFrequencyImpl = s['bfi']
+    ns.RandomExcursionsDistribution = s['red']
     ns.berlekamp_massey, ens.berlekamp_massey = s['ns_bm'], s['ens_bm']
 
 
@@ -174,6 +204,7 @@ class Case:
     self.op, self.bits, self.n, self.args, self.tag = op, bits, n, tuple(args), tag
     self.transform = transform   # name of an invariance: impl runs on T(bits), model on bits
     self.oracle = None
+    self.flo = None      # float oracles of the run (Recorder.flo); None = implementation not run
     self.res = None
     self.tr = None
 
@@ -204,7 +235,9 @@ class Case:
       try:
         r = f()
       except Exception as e:  # noqa
+        self.flo = rec.flo
         return ('err', type(e).__name__), rec.tr, rec.oracle
+    self.flo = rec.flo
     if isinstance(r, list):
       out = [(str(name), float(p)) for name, p in r]
     else:
@@ -218,6 +251,26 @@ class Case:
       self.oracle = oracle
     return self
 
+  # -- float oracles ----------------------------------------------------------
+  def chi_flags(self):
+    """(badProb, badSum) of the ChiSquare call of this run ((False, False) if not reached / not run)."""
+    f = (self.flo or {}).get('chi') or []
+    return f[-1] if f else (False, False)
+
+  def exc_zero(self):
+    return bool((self.flo or {}).get('exc0'))
+
+  def float_suffix(self):
+    """oracle arguments on the request line; empty (= clean oracle) when the implementation was not run."""
+    if self.flo is None:
+      return ''
+    if self.op in ('nist.rank', 'nist.otm'):
+      bp, bs = self.chi_flags()
+      return ' %s %s' % (B(bp), B(bs))
+    if self.op == 'nist.randomwalk':
+      return ' %s' % B(self.exc_zero())
+    return ''
+
   # -- request line ----------------------------------------------------------
   def line(self, reg=None):
     b = ('$' + reg) if reg else H(self.bits)
@@ -226,17 +279,17 @@ class Case:
               'nist.largerank'):
       return '%s %s %s' % (op, b, n)
     if op == 'nist.rank':
-      return '%s %s %s %s %s %s %s' % (op, b, n, H(a[0]), H(a[1]), H(a[2]), B(a[3]))
+      return '%s %s %s %s %s %s %s' % (op, b, n, H(a[0]), H(a[1]), H(a[2]), B(a[3])) + self.float_suffix()
     if op == 'nist.notm':
       return '%s %s %s %s %s %s' % (op, b, n, H(a[0]), O(a[1]), '-' if a[2] is None else L(a[2]))
     if op == 'nist.otm':
-      return '%s %s %s %s %s' % (op, b, n, O(a[0]), O(a[1]))
+      return '%s %s %s %s %s' % (op, b, n, O(a[0]), O(a[1])) + self.float_suffix()
     if op == 'nist.universalimpl':
       return '%s %s %s %s %s' % (op, b, n, H(a[0]), H(a[1]))
     if op in ('nist.serial', 'nist.apen'):
       return '%s %s %s %s' % (op, b, n, O(a[0]))
     if op == 'nist.randomwalk':
-      return '%s %s %s %s %s %s' % (op, b, n, H(a[0]), H(a[1]), H(a[2]))
+      return '%s %s %s %s %s %s' % (op, b, n, H(a[0]), H(a[1]), H(a[2])) + self.float_suffix()
     # oracle ops: the model sees lengths and the recorded complexities, not the bits
     if op == 'nist.lincomp':
       return '%s %s %s %s' % (op, n, H(a[0]), L(self.oracle))
@@ -261,16 +314,16 @@ class Case:
     if op == 'nist.blockfreq': return ref.blockfreq(bits, n)
     if op == 'nist.runs': return ref.runs(bits, n)
     if op == 'nist.longestruns': return ref.longestruns(bits, n)
-    if op == 'nist.rank': return ref.rank(bits, n, *a)
+    if op == 'nist.rank': return ref.rank(bits, n, *a, chi_rejects=any(self.chi_flags()))
     if op == 'nist.notm': return ref.notm(bits, n, a[0], a[1], None if a[2] is None else list(a[2]))
-    if op == 'nist.otm': return ref.otm(bits, n, a[0], a[1])
+    if op == 'nist.otm': return ref.otm(bits, n, a[0], a[1], chi_rejects=any(self.chi_flags()))
     if op == 'nist.universal': return ref.universal(bits, n)
     if op == 'nist.universalimpl': return ref.universalimpl(bits, n, a[0], a[1])
     if op == 'nist.lincomp': return ref.lincomp(n, a[0], self.oracle)
     if op == 'nist.lincompimpl': return ref.lincompimpl(a[0], self.oracle)
     if op == 'nist.serial': return ref.serial(bits, n, a[0])
     if op == 'nist.apen': return ref.apen(bits, n, a[0])
-    if op == 'nist.randomwalk': return ref.randomwalk(bits, n, *a)
+    if op == 'nist.randomwalk': return ref.randomwalk(bits, n, *a, exc_zero=self.exc_zero())
     if op == 'nist.largerank': return ref.largerank(bits, n)
     if op == 'nist.scatter': return ref.scatter(n, a[0], a[1], self.oracle)
     raise KeyError(op)
@@ -333,6 +386,11 @@ def pclose(p, q):
 
 
 def fclose(x, y, rtol=1e-6, atol=1e-6):
+  if x in (math.inf, -math.inf):
+    # the implementation's float statistic overflowed, e.g. (c - n p)^2 / (n p) with p ~ 1e-320 (halved only
+    # afterwards): accepted iff the exact value is itself at the top of the double range (> 2^1000) on the
+    # same side; the p-value (0 at such arguments) is compared separately
+    return mp.mpf(y) * (1 if x > 0 else -1) > mp.mpf(2) ** 1000
   y = float(y)
   return x == x and abs(x - y) <= atol + rtol * abs(y)
 
@@ -560,6 +618,7 @@ class NBatch(Batch):
 
   def add_case(self, case, aux_line=None):
     case.run_impl()
+    note_float(case)
     if case.op == 'nist.universal' and case.n >= 904960 and aux_line is None:
       # the pinned code uses L = 6 whatever n is (D19): ask the model for that variant as well
       aux_line = 'nist.universalimpl $B %s 6 280' % H(case.n)
@@ -606,6 +665,33 @@ class NBatch(Batch):
           it['pred'] = make_pred(case)
         div.append(it)
     return div
+
+
+FLO = {'chi_calls': 0, 'rank_rejected': 0, 'otm_rejected': 0, 'other_chi_rejected': 0,
+       'bad_sum': 0, 'excursion_zero': 0}
+
+
+def note_float(case):
+  """counts the float-oracle outcomes of a run (evidence: float_oracle) and, for the cases of the
+  dedicated generator (tags 'float:…'), appends which side of the underflow boundary was hit."""
+  flo = case.flo or {}
+  side = None
+  for bp, bsum in flo.get('chi', []):
+    FLO['chi_calls'] += 1
+    if bp or bsum:
+      key = {'nist.rank': 'rank_rejected', 'nist.otm': 'otm_rejected'}.get(case.op, 'other_chi_rejected')
+      FLO[key] += 1
+    if bsum and not bp:
+      FLO['bad_sum'] += 1
+  if flo.get('exc0'):
+    FLO['excursion_zero'] += 1
+  if case.tag.startswith('float:'):
+    if case.op in ('nist.rank', 'nist.otm'):
+      side = ('chi-rejected' if any(case.chi_flags()) else 'chi-accepted') if flo.get('chi') else 'chi-not-reached'
+    elif case.op == 'nist.randomwalk':
+      side = 'pi-zero' if case.exc_zero() else 'pi-positive'
+    if side:
+      case.tag += ':' + side
 
 
 CANONICAL_REPLAY = {
@@ -913,6 +999,9 @@ def correspondence(rep, rng, tier):
         b.add_case(Case('nist.randomwalk', x, n, prm, 'param:randomwalk-cycles'))
   absorb(rep, b)
 
+  # --- 6b. exceptions decided by a float underflow (F11): both sides of every boundary
+  float_batch(rep, rng, thorough)
+
   # --- 7. invariances: implementation on T(x) against the model on x
   b = NBatch('nist.invariance', rep)
   for n in (5, 8, 13, 64, 100, 257, 1000, 4096):
@@ -962,6 +1051,74 @@ def correspondence(rep, rng, tier):
   rep.absorb(b, div)
   rep.extra['correspondence_s'] = round(time.time() - t0, 1)
   rep.extra['ill_conditioned_tail_accepted'] = ILL['count']
+  rep.extra['float_oracle'] = dict(FLO)
+
+
+def float_batch(rep, rng, thorough):
+  """Shapes for which the FLOAT expected distribution underflows (or just does not), so that the
+  implementation raises where the exact distribution is positive (Model/NistFloat.lean).  The tag records
+  the side of the boundary that the real run took: `:chi-rejected` / `:chi-accepted` (ChiSquare's float
+  validation), `:pi-zero` / `:pi-positive` (RandomExcursionsDistribution)."""
+  b = NBatch('nist.float', rep)
+
+  def strings(n):
+    return [('random', rng.getrandbits(n)), ('zeros', 0), ('ones', (1 << n) - 1),
+            ('sparse', rng.getrandbits(n) & rng.getrandbits(n) & rng.getrandbits(n))]
+
+  # -- BinaryMatrixRank: lumped tail P(rank <= r - k) ~ 2^(-k(c-r+k)) against 2^-1074
+  shapes = []
+  # the reviewer's cases and their neighbours
+  shapes += [('8xc,k=5', 8, 300, 5, True, 38)] + [('8xc,k=5', 8, c, 5, False, 2) for c in (214, 216, 217, 218, 219, 220, 222)]
+  shapes += [('40x40', 40, 40, k, False, 3) for k in (6, 30, 32, 33, 34, 40)]
+  shapes += [('2xc,k=1', 2, c, 1, False, 2) for c in (1070, 1073, 1074, 1075, 1076, 1077, 1078, 1100)]
+  # P(rank = 0) = 2^-(r c) exactly: 2^-1070, 2^-1074 (smallest subnormal), 2^-1075, 2^-1076, 2^-1077, 2^-1080
+  shapes += [('k=r,rc~1074', r, c, r, False, nm) for (r, c, nm) in (
+      (5, 214, 1), (6, 179, 1), (3, 358, 2), (5, 215, 1), (4, 269, 1), (3, 359, 1), (6, 180, 2), (3, 400, 1))]
+  shapes += [('1xc', 1, c, 1, False, 3) for c in (1073, 1074, 1075, 1076)]
+  # square shapes with k > 5 (no precomputed table): k^2 against 1074
+  shapes += [('square,k>5', r, r, k, False, nm) for (r, k, nm) in (
+      (33, 32, 1), (33, 33, 2), (34, 32, 1), (34, 33, 1), (32, 6, 2), (32, 32, 1), (31, 6, 1))]
+  # table branch: never rejected, whatever k <= 5
+  shapes += [('table', 32, 32, k, False, 2) for k in (1, 2, 3, 4, 5)] + [('table', 40, 40, 5, False, 1), ('table', 64, 64, 1, False, 1)]
+  # c < r: exactly zero (decided by the model without the oracle), also when the tail underflows as well
+  shapes += [('c<r', 300, 8, 5, False, 1), ('c<r', 40, 39, 33, False, 1)]
+  # r beyond the exponent range of 2**(j - r)
+  if thorough:
+    # (accepted shapes need the exact distribution in the tail: Fractions, super-cubic in r — keep r small there)
+    shapes += [('r>1074', 1100, 1100, 40, False, 1), ('8xc,k=5', 8, 300, 5, True, 37),
+               ('16xc,k=13', 16, 100, 13, False, 2), ('16xc,k=13', 16, 85, 13, False, 2), ('100x100', 100, 100, 33, False, 1),
+               ('100x100', 100, 100, 32, False, 1)]
+  for (fam, r, c, k, chk, nm) in shapes:
+    n = r * c * nm + (0 if chk else rng.randrange(0, c))
+    for tag, x in strings(n)[:(4 if r * c < 3000 else 2)]:
+      b.add_case(Case('nist.rank', x, n, (r, c, k, chk), 'float:rank[%s]' % fam))
+
+  # -- RandomWalk: pi[k] = 2^-(k+1) for x = +-1 against 2^-1074; needs J >= 500 and max_state >= 1
+  many = int('01' * 600, 2)                       # J = 601
+  mixed = periodic('0011' * 3 + '01', 2800)       # J >= 500, visits +-1, +-2
+  few = int('01' * 200, 2)                        # J = 201 < 500: the excursion tests are skipped
+  for mc in (1072, 1073, 1074, 1075, 1076, 1077, 1200) + ((2000, 5600) if thorough else ()):
+    for ms, msv in ((4, 9), (1, 1)):
+      b.add_case(Case('nist.randomwalk', many, 1200, (ms, mc, msv), 'float:randomwalk(ms>=1,J>=500)'))
+    b.add_case(Case('nist.randomwalk', mixed, 2800, (2, mc, 3), 'float:randomwalk(ms>=1,J>=500)'))
+    b.add_case(Case('nist.randomwalk', many, 1200, (0, mc, 9), 'float:randomwalk(ms=0)'))
+    b.add_case(Case('nist.randomwalk', few, 400, (4, mc, 9), 'float:randomwalk(J<500)'))
+  for J in (499, 500, 501):
+    x = int('01' * (J - 1) + '1', 2)
+    for mc in (1074, 1075):
+      b.add_case(Case('nist.randomwalk', x, 2 * J - 1, (4, mc, 9), 'float:randomwalk(J=%d)' % J))
+
+  # -- OverlappingTemplateMatching: P(>= 5 occurrences) = 2^-(m+4) for block_size = m + 4.  One matrix
+  # power of a (5m+1)^2 float matrix costs ~15 s: one case on either side in the quick tier.
+  otm = [(1070, 1074), (1071, 1075)]
+  if thorough:
+    otm += [(1069, 1073), (1072, 1076), (1100, 3000), (1074, 1078)]
+  for (m, bs) in otm:
+    n = bs + rng.randrange(0, 50)
+    b.add_case(Case('nist.otm', rng.getrandbits(n), n, (m, bs), 'float:otm[m=%d]' % m))
+  if thorough:
+    b.add_case(Case('nist.otm', (1 << 1074) - 1, 1074, (1070, 1074), 'float:otm[m=1070,ones]'))
+  absorb(rep, b)
 
 
 def ladder_batch(rep, rng, lits, thorough):
